@@ -503,6 +503,12 @@ class Concatenator(Group):  # pylint: disable=too-many-public-methods
         elif isinstance(entity, ConcatenatedObject):
             # First remove the children
             entity.remove_children(entity.children.copy())
+
+            # Remove the rows of the arrays of the object itself
+            if hasattr(entity, "surveys"):  # Specific to drillholes
+                self.update_array_attribute(entity, "surveys", remove=True)
+                self.update_array_attribute(entity, "trace", remove=True)
+
             object_ids = self.concatenated_object_ids
 
             if object_ids is not None:
